@@ -156,6 +156,7 @@ func CurrentThread() int                         { return 0 }
 func ThreadBegin(id int)                         {}
 func ThreadEnd()                                 {}
 func LockEvent(m interface{}, acquire bool)      {}
+func LockEventShared(m interface{}, acquire bool) {}
 func HeldByCurrentThread() int                   { return 0 }
 func RaceCheck(specs string)                     {}
 func Touch(resource string, write bool)          {}
